@@ -805,7 +805,7 @@ class DSDLCodeGenerator(CodeGenerator):
 
         def _field_is_instance(field_or_datatype: pydsdl.Any) -> bool:
             if isinstance(field_or_datatype, pydsdl.Attribute):
-                return isinstance(field_or_datatype.data_type, root)
+                return isinstance(field_or_datatype, root) or isinstance(field_or_datatype.data_type, root)
             else:
                 return isinstance(field_or_datatype, root)
 
